@@ -5,8 +5,15 @@
 (* done -- nesting of execution contexts, blocked-in-child state, position of *)
 (* the poll counter, output printed so far, cancel vs deadline, before or     *)
 (* after the first instruction -- with what the specification demands of the  *)
-(* rest of the run.  Every uncancelled ExecuteContext state with a new shape  *)
-(* is exported as a "nocancel" scenario (the context must be invisible).      *)
+(* rest of the run.  Output printed so far is given per destination (direct / *)
+(* buffered standard output, file, command) with how much of it is still      *)
+(* pending in a buffer; all of it must have been delivered when the call      *)
+(* returns.  Every uncancelled ExecuteContext state with a new shape          *)
+(* is exported as a "nocancel" scenario (the context must be invisible); when *)
+(* the step is a child ending by itself, the scenario names the instruction   *)
+(* that waited (waited) and how the child ended (outcome: what system() /     *)
+(* close() hand to the program: zero / status / signal / fail = -1 with a     *)
+(* diagnostic).                                                               *)
 (* The harness renders a scenario to an AWK program of that shape.            *)
 EXTENDS Cancel, Json
 
@@ -18,18 +25,20 @@ gvars == <<vars, started>>
 
 CancelScenario ==
   [fam |-> "cancel", kinds |-> Kinds(ps), phase |-> ps.phase, waiting |-> ps.waiting, opsclass |-> OpsClass,
-   printed |-> ps.printed, why |-> why', started |-> started, checkevery |-> CheckEvery,
+   printed |-> ps.printed, pending |-> ps.pending, why |-> why', started |-> started, checkevery |-> CheckEvery,
    \* what the specification demands of the rest of the run
    expect |-> [results |-> {"ctxerr", "ok"}, errid |-> why', maxsince |-> CheckEvery, mindelivered |-> ps.printed]]
 
 \* Invisible: the run must equal the run of the context-free machine (Execute)
 NoCancelScenario == [fam |-> "nocancel", kinds |-> Kinds(ps'), phase |-> ps'.phase, waiting |-> ps'.waiting, printed |-> ps'.printed,
+                     waited |-> IF ps.waiting # "none" /\ ps'.waiting = "none" THEN ps.waiting ELSE "none",
+                     outcome |-> ps'.lastret,
                      expect |-> [same |-> (ViewOf(ps') = ViewOf(bs'))]]
 
 GInit == Init /\ started = FALSE
 GNext ==
   \/ /\ CancelNow /\ ps.stack # <<>> /\ started' = started /\ PrintT(ToJson(CancelScenario))
-  \/ /\ (Step \/ NextRecord \/ LeaveBegin \/ EnterEnd \/ ChildDone) /\ started' = TRUE
+  \/ /\ (Step \/ NextRecord \/ LeaveBegin \/ EnterEnd \/ ChildDone \/ BufferFull) /\ started' = TRUE
      /\ (useCtx /\ ps'.stack # <<>> /\ ViewOf(ps') # ViewOf(ps)) => PrintT(ToJson(NoCancelScenario))
   \/ FinishOk /\ started' = started
 
